@@ -91,7 +91,7 @@ def build_coq(targets=None, timeout=2400):
 
 def build_model():
     """extract the model and compile the OCaml runner (only when stale)"""
-    rc, out, _ = build_coq(['theories/Sexp.vo'])
+    rc, out, _ = build_coq(['theories/Entry2.vo'])
     if rc != 0:
         raise BuildError('model does not compile:\n' + out[-3000:])
     mdir = os.path.join(BUILD, 'modelrun')
